@@ -220,6 +220,9 @@ class Sched:
         fn = frame.f_code.co_filename
         if not fn.startswith(fine['prefix']) or '/tests/' in fn:
             return None
+        q = fine.get('qual')
+        if q and not frame.f_code.co_qualname.startswith(q):
+            return None
         return self._line_tracer
 
     def _line_tracer(self, frame, event, arg):
